@@ -56,6 +56,9 @@ fn hook_map(mut m: Map<String, Value>) -> Option<Map<String, Value>> {
     }
 }
 
+/// the socket of the "duplex" body: (the tasks' end, the peer's end)
+static DUPLEX: std::sync::OnceLock<(i32, i32)> = std::sync::OnceLock::new();
+
 fn run_scenario(sc: &Value) {
     if sc["join"].as_bool().unwrap_or(false) || sc.get("stop_after_ms").is_some() {
         // the hook events (end of run, result stored) are only needed where results are joined
@@ -70,6 +73,20 @@ fn run_scenario(sc: &Value) {
     let join_ms = sc["join_ms"].as_u64().unwrap_or(400);
     let stop_after_ms = sc.get("stop_after_ms").and_then(Value::as_u64);
     let sleep_ms = sc["sleep_ms"].as_u64().unwrap_or(0);
+    if sc["body"].as_str() == Some("duplex") {
+        let mut fds = [0i32; 2];
+        unsafe {
+            libc::socketpair(libc::AF_UNIX, libc::SOCK_STREAM, 0, fds.as_mut_ptr());
+            let tv = libc::timeval { tv_sec: (sleep_ms / 1000) as i64, tv_usec: ((sleep_ms % 1000) * 1000) as i64 };
+            libc::setsockopt(fds[0], libc::SOL_SOCKET, libc::SO_RCVTIMEO, std::ptr::from_ref(&tv).cast(), size_of::<libc::timeval>() as u32);
+        }
+        let _ = DUPLEX.set((fds[0], fds[1]));
+        // an observer outside the loop: half-way through the reader's wait every other task must long be asleep
+        std::thread::spawn(move || {
+            std::thread::sleep(Duration::from_millis(sleep_ms / 2));
+            rec(json!({"ev": "mid"}));
+        });
+    }
     let total = m * n;
     // `late_loop_ms`: every loop thread is held at its very first instruction (a slow thread start);
     // `race_task`: the submitter of that task is held between the pool's state check and its push
@@ -160,6 +177,30 @@ fn run_scenario(sc: &Value) {
                                 rec(json!({"ev": "sleep_b", "task": t}));
                                 let _ = open_coroutine_core::syscall::usleep(None, (sleep_ms * 1000) as u32);
                                 rec(json!({"ev": "sleep_e", "task": t}));
+                            }
+                            // a socket shared by a reader and a writer task of one loop (the ordinary full-duplex use): task 1
+                            // is parked in a hooked recv for sleep_ms, task 2 sends on the same socket 20 ms later and then
+                            // sleeps, the others sleep from 40 ms on - the parked reader must not keep the loop from running them
+                            "duplex" => {
+                                let (a, _b) = *DUPLEX.get().expect("duplex socket");
+                                if t == 1 {
+                                    let mut buf = [0u8; 8];
+                                    rec(json!({"ev": "sleep_b", "task": t}));
+                                    let r = open_coroutine_core::syscall::recv(None, a, buf.as_mut_ptr().cast(), 8, 0);
+                                    rec(json!({"ev": "sleep_e", "task": t, "ret": r}));
+                                } else {
+                                    if let Some(s) = open_coroutine_core::scheduler::SchedulableSuspender::current() {
+                                        s.delay(Duration::from_millis(if t == 2 { 20 } else { 40 }));
+                                    }
+                                    if t == 2 {
+                                        let x = [7u8];
+                                        let r = open_coroutine_core::syscall::send(None, a, x.as_ptr().cast(), 1, 0);
+                                        rec(json!({"ev": "submitted", "task": t, "sent": r}));
+                                    }
+                                    rec(json!({"ev": "sleep_b", "task": t}));
+                                    let _ = open_coroutine_core::syscall::usleep(None, 100_000);
+                                    rec(json!({"ev": "sleep_e", "task": t}));
+                                }
                             }
                             "recvwait" => {
                                 // a hooked recv on an idle socket with a receive timeout: the coroutine is parked
